@@ -52,6 +52,7 @@ func runC20(c *eng.Ctx) {
 	terminatorLabelNeedsASibling(c)
 	heapIndexReadOnlyWhereRight(c)
 	reusedBitBufferClearedWhole(c)
+	trieVectorsOwnTheirMemory(c)
 }
 
 // ---- (1) iterator keys -----------------------------------------------------------------------------------------------------------
